@@ -149,6 +149,29 @@ def run_property(pid, spec, tier, seed, t0):
         broken.append("correspondence %s: model and implementation differ on %d case(s), first: %s"
                       % (d["kind"], len(tot.disagreements), d["session"][-1][:160]))
 
+    # ---- a timeout / resource verdict alone is never reported: the same session must fail again, three times,
+    #      in isolation, with a 10x longer watchdog (a loaded machine must not raise a false alarm)
+    transient = 0
+    confirmed = []
+    for f in tot.oracle_fail:
+        v = f.get("verdict", "")
+        if f.get("kind", "").startswith("e2e") or not (v.startswith("fail:hang") or v.startswith("fail:process died") or v.startswith("fail:alloc")):
+            confirmed.append(f)
+            continue
+        again = 0
+        for _ in range(3):
+            try:
+                go = C.run_go(f["kind"], f["session"], watchdog_ms=10000)
+                if go[-1] is not None and go[-1][1].startswith("fail"):
+                    again += 1
+            except Exception:
+                again += 1
+        if again == 3:
+            confirmed.append(f)
+        else:
+            transient += 1
+    tot.oracle_fail = confirmed
+
     # ---- decide
     fails = list(tot.oracle_fail)
     known_hits, new_fails = {}, []
@@ -213,6 +236,7 @@ def run_property(pid, spec, tier, seed, t0):
         "compared_with_model": tot.compared, "disagreements": len(tot.disagreements),
         "oracle_ok": tot.oracle_ok, "oracle_fail": len(fails), "known_findings_hit": sorted(known_hits),
         "per_kind": per_kind, "broken": broken, "search_mode_cases": searched,
+        "transient_timeouts_not_confirmed": transient,
     }
     if spec.get("exhaustive"):
         cov["exhaustive"] = True
